@@ -942,6 +942,170 @@ def gen_scram(n, exhaustive_every):
 
 
 # ------------------------------------------------------------------------------------------------------
+# histories of calls on ONE AuthScram object: WELCOME on a fresh object, after a failed / partial CHALLENGE, twice,
+# after a second CHALLENGE with other parameters.  Oracle (independent tracker below): a WELCOME may be accepted only
+# when a CHALLENGE completed before (its KDF ran) and only with HMAC(HMAC(SaltedPassword,"Server Key"), AuthMessage)
+# of the values in force; in particular never on a fresh object and never the password-independent constant
+# HMAC(HMAC(b"","Server Key"), b"").
+# ------------------------------------------------------------------------------------------------------
+EMPTY_DEFAULT_SIG = rfc_hmac("sha256", rfc_hmac("sha256", b"", b"Server Key"), b"")
+
+
+def history_case(r, template=None, force=False):
+    password = gen_text(r, maxlen=12) or "pw"
+    try:
+        pw = password.encode("utf8")
+    except UnicodeEncodeError:
+        password, pw = "pässwörd", "pässwörd".encode("utf8")
+    authid = "user" + str(r.randint(0, 9))
+    a = auth.AuthScram(password=password, authid=authid)
+    ref = {"nonce": None, "am": None, "sp": None}
+    past_sigs, last_proof = [], [None]
+    ops, outs = [], []
+    REC.reset()
+
+    def impl(f, *args):
+        REC.on = True
+        try:
+            return call(f, *args)
+        finally:
+            REC.on = False
+
+    def do_authextra():
+        URANDOM[0] = random.Random(f"{inp['seed']}/hnonce/{evals[0]}/{len(ops)}")
+        n = a.authextra["nonce"]
+        URANDOM[0] = None
+        if ref["nonce"] is None:
+            ref["nonce"] = n
+        ops.append({"op": "authextra", "nonce": cps(n)})
+        outs.append({"ok": ""})
+        if n != ref["nonce"]:
+            fail("AuthScram.authextra/nonce-changed", "the client nonce changed between two reads of authextra", {"op": "scram_history"})
+
+    def do_challenge(variant):
+        sn = (ref["nonce"] or "x") + base64.b64encode(r.randbytes(9)).decode()
+        salt_raw = r.randbytes(16)
+        extra = {"nonce": sn, "kdf": "argon2id-13", "salt": base64.b64encode(salt_raw).decode(), "iterations": r.choice([1, 2]), "memory": r.choice([8, 16])}
+        if variant == "pbkdf2":
+            extra.update(kdf="pbkdf2", iterations=r.choice([1, 2, 50]))
+            del extra["memory"]
+        elif variant == "unknown-kdf":
+            extra["kdf"] = "scrypt"
+        elif variant == "no-memory":
+            del extra["memory"]
+        elif variant == "bad-salt":
+            extra["salt"] = "QUJ"
+        elif variant == "pbkdf2-iter0":
+            extra.update(kdf="pbkdf2", iterations=0)
+            del extra["memory"]
+        elif variant == "nonascii-cbind":
+            extra["channel_binding"] = "bïws"
+        elif variant == "cbind":
+            extra["channel_binding"] = "biws"
+        rr = impl(a.on_challenge, None, wtypes.Challenge("scram", dict(extra)))
+        ops.append({"op": "challenge", "extra": {"nonce": cps(sn), "kdf": cps(extra["kdf"]), "salt": pv(extra["salt"]), "iterations": extra["iterations"],
+                                                "memory": extra.get("memory"), "cbind": cps(extra.get("channel_binding", ""))}})
+        outs.append(outcome(rr, lambda b: b.hex()))
+        # independent tracker of what a completed / partial challenge leaves behind
+        completed = False
+        if ref["nonce"] is not None:
+            am = f"n={authid},r={ref['nonce']},r={sn},s={extra['salt']},i={extra['iterations']},c={extra.get('channel_binding', '')},r={sn}"
+            if am.isascii():
+                ref["am"] = am.encode("ascii")
+                try:
+                    if extra["kdf"] == "argon2id-13" and "memory" in extra:
+                        ref["sp"] = argon_tag_text(argon2id_raw(pw, base64.b64decode(extra["salt"]), extra["iterations"], extra["memory"]))
+                        completed = True
+                    elif extra["kdf"] == "pbkdf2" and extra["iterations"] >= 1:
+                        ref["sp"] = rfc_pbkdf2("sha256", pw, base64.b64decode(extra["salt"]), extra["iterations"], 32)
+                        completed = True
+                except Exception:
+                    pass
+        bump(f"history challenge {variant} " + ("ok" if rr[0] == "ok" else rr[1]))
+        if completed != (rr[0] == "ok"):
+            fail("AuthScram.on_challenge/history/outcome", f"challenge variant {variant}: implementation {rr[0]}, reference completed={completed}",
+                 {"op": "scram_history", "password": password, "authid": authid, "ops": ops})
+        if completed:
+            srv = RfcScramServer.from_salted_password(ref["sp"])
+            if not srv.verify_client_proof(ref["am"], base64.b64decode(rr[1])):
+                fail("AuthScram.on_challenge/history/proof-rejected", "RFC 5802 server rejects the proof", {"op": "scram_history", "password": password, "authid": authid, "ops": ops})
+            past_sigs.append(srv.server_signature(ref["am"]))
+            last_proof[0] = rr[1].decode()
+
+    def do_welcome(which):
+        genuine = None
+        if ref["sp"] is not None and ref["am"] is not None:
+            genuine = rfc_hmac("sha256", rfc_hmac("sha256", ref["sp"], b"Server Key"), ref["am"])
+        if which == "genuine" and genuine is None:
+            which = "empty-default"
+        if which == "previous" and len(past_sigs) < 2:
+            which = "random"
+        if which == "proof-echo" and last_proof[0] is None:
+            which = "random"
+        sig = {"genuine": genuine, "empty-default": EMPTY_DEFAULT_SIG, "random": r.randbytes(32), "previous": past_sigs[-2] if len(past_sigs) >= 2 else None}.get(which)
+        if which == "missing":
+            ax, sigj = {}, None
+        elif which == "garbage":
+            ax, sigj = {"scram_server_signature": "QUJ"}, pv("QUJ")
+        elif which == "proof-echo":
+            ax, sigj = {"scram_server_signature": last_proof[0]}, pv(last_proof[0])
+        else:
+            t = base64.b64encode(sig).decode()
+            ax, sigj = {"scram_server_signature": t}, pv(t)
+        rr = impl(a.on_welcome, _Sess(), ax)
+        accepted = rr == ("ok", None)
+        ops.append({"op": "welcome", "sig": sigj})
+        outs.append({"exc": rr[1]} if rr[0] == "exc" else {"ok": "01" if accepted else "00"})
+        evals[0] += 1
+        state = "fresh" if ref["am"] is None and ref["sp"] is None else ("partial" if ref["sp"] is None else "challenged")
+        bump(f"history welcome {state} {which} " + ("accept" if accepted else "deny" if rr[0] == "ok" else rr[1]))
+        may_accept = genuine is not None and sig is not None and which not in ("missing", "garbage", "proof-echo") and hmac.compare_digest(sig, genuine)
+        rep = {"op": "scram_history", "password": password, "authid": authid, "ops": list(ops)}
+        if accepted and not may_accept:
+            if genuine is None:
+                fail("AuthScram.on_welcome/accepted-without-completed-challenge",
+                     f"on_welcome accepts a WELCOME ({which} signature) although no CHALLENGE completed on this object (state {state}): "
+                     f"a router that never proved knowledge of the password is accepted", rep)
+            else:
+                fail("AuthScram.on_welcome/forged-signature-accepted", f"on_welcome({which}) accepted in state {state}", rep)
+        elif may_accept and not accepted:
+            fail("AuthScram.on_welcome/correct-signature-denied", f"on_welcome(genuine) -> {rr} in state {state}", rep)
+        elif rr[0] == "ok" and not accepted and not isinstance(rr[1], str):
+            fail("AuthScram.on_welcome/deny-value", f"deny value is not an error string: {rr}", rep)
+
+    good = ["argon", "argon", "pbkdf2", "cbind"]
+    bad = ["unknown-kdf", "no-memory", "bad-salt", "pbkdf2-iter0", "nonascii-cbind"]
+    sigs = ["genuine", "empty-default", "random", "missing", "garbage", "previous", "proof-echo"]
+    templates = {
+        "fresh": lambda: [("w", s_) for s_ in r.sample(sigs, 3)],
+        "fresh-after-hello": lambda: [("a",)] + [("w", s_) for s_ in ["empty-default", r.choice(sigs)]],
+        "failed": lambda: [("a",), ("c", r.choice(bad)), ("w", "empty-default"), ("w", r.choice(sigs))],
+        "no-hello": lambda: [("c", r.choice(good)), ("w", "empty-default"), ("a",), ("w", "random")],
+        "twice": lambda: [("a",), ("c", r.choice(good)), ("w", "genuine"), ("w", "genuine"), ("w", r.choice(sigs))],
+        "rechallenge": lambda: [("a",), ("c", r.choice(good)), ("c", r.choice(good)), ("w", "previous"), ("w", "genuine")],
+        "good-then-failed": lambda: [("a",), ("c", r.choice(good)), ("c", r.choice(bad)), ("w", "genuine"), ("w", "previous"), ("w", "empty-default")],
+        "random": lambda: [r.choice([("a",), ("c", r.choice(good + bad)), ("w", r.choice(sigs)), ("w", r.choice(sigs))]) for _ in range(r.randint(2, 6))],
+    }
+    tname = template or r.choice(list(templates))
+    for st in templates[tname]():
+        if st[0] == "a": do_authextra()
+        elif st[0] == "c": do_challenge(st[1])
+        else: do_welcome(st[1])
+    bump("history template " + tname)
+    am_, sp_ = getattr(a, "_auth_message", None), getattr(a, "_salted_password", None)
+    add_case({"kind": "scram_history", "password": cps(password), "authid": cps(authid), "ops": ops, "outs": outs,
+              "state": [None if am_ is None else am_.hex(), None if sp_ is None else sp_.hex()], "tables": REC.dump(), "force": force})
+
+
+def gen_history(n):
+    r = random.Random(f"{inp['seed']}/history")
+    for t in ("fresh", "fresh-after-hello", "failed", "no-hello", "twice", "rechallenge", "good-then-failed"):
+        history_case(r, t, force=True)
+    for i in range(n):
+        history_case(r)
+
+
+# ------------------------------------------------------------------------------------------------------
 # WAMP-cryptosign
 # ------------------------------------------------------------------------------------------------------
 class _TD:
@@ -1237,6 +1401,32 @@ def session_scram(r, kdf, mode):
             fail("session/scram/forged-welcome-no-abort", f"WELCOME with {mode} server signature: no ABORT(cannot_authenticate): {ab}", rep)
 
 
+def session_scram_nochallenge(r, mode):
+    """a rogue router answers HELLO directly with WELCOME(authmethod=scram): no signature can be genuine"""
+    from autobahn.wamp.types import ComponentConfig
+    s = ENV.session(mixin=_shim(), config=ComponentConfig(realm="realm1"))
+    s.s.add_authenticator(auth.create_authenticator("scram", authid="user", password="p4ssw0rd"))
+    s.open()
+    if mode == "empty-default":
+        ax = {"scram_server_signature": base64.b64encode(EMPTY_DEFAULT_SIG).decode()}
+    elif mode == "random":
+        ax = {"scram_server_signature": base64.b64encode(r.randbytes(32)).decode()}
+    elif mode == "empty-string":
+        ax = {"scram_server_signature": ""}
+    else:
+        ax = {}
+    s.recv([2, 4711, {"roles": ROLES, "authid": "user", "authrole": "user", "authmethod": "scram", "authprovider": "static", "authextra": ax}])
+    ab = sends(s, 3)
+    evals[0] += 1
+    bump(f"session scram no-challenge {mode} " + ("joined" if joined(s) else "aborted" if ab else "neither"))
+    rep = {"op": "session_scram_nochallenge", "mode": mode, "authextra": ax}
+    if joined(s) or s.s._session_id is not None:
+        fail("AuthScram.on_welcome/accepted-without-completed-challenge",
+             f"session: WELCOME(authmethod=scram, {mode} signature) without any CHALLENGE is accepted and the session joins", rep)
+    elif len(ab) != 1 or ab[0][2] != "wamp.error.cannot_authenticate":
+        fail("session/scram/no-challenge-welcome-no-abort", f"no ABORT(cannot_authenticate): {ab}", rep)
+
+
 def session_cra(r):
     from autobahn.wamp.types import ComponentConfig
     secret, authid = gen_text(r, maxlen=20) or "s", "user"
@@ -1295,6 +1485,7 @@ def gen_session(n):
     modes = ["good", "flip", "flip", "missing", "garbage", "random"]
     for i in range(n):
         session_scram(r, kdfs[i % 3], modes[(i // 3) % len(modes)])
+        session_scram_nochallenge(r, ["empty-default", "random", "missing", "empty-string"][i % 4])
         session_cra(r)
         session_cs(r)
 
@@ -1320,6 +1511,30 @@ def replay(rep):
             return res
         except Exception as e:
             return {"raised": f"{type(e).__name__}: {e}"}
+    if op == "scram_history":
+        a = auth.AuthScram(password=rep["password"], authid=rep["authid"])
+        res = []
+        for o in rep["ops"]:
+            if o["op"] == "authextra":
+                a._client_nonce = "".join(map(chr, o["nonce"]))
+                res.append("authextra")
+            elif o["op"] == "challenge":
+                x = o["extra"]
+                ex = {"nonce": "".join(map(chr, x["nonce"])), "kdf": "".join(map(chr, x["kdf"])), "salt": unpv(x["salt"]), "iterations": x["iterations"]}
+                if x["memory"] is not None: ex["memory"] = x["memory"]
+                if x["cbind"]: ex["channel_binding"] = "".join(map(chr, x["cbind"]))
+                res.append("on_challenge -> " + repr(call(a.on_challenge, None, wtypes.Challenge("scram", ex))))
+            else:
+                ax = {} if o["sig"] is None else {"scram_server_signature": unpv(o["sig"])}
+                res.append(f"on_welcome({ax}) -> " + repr(call(a.on_welcome, _Sess(), ax)))
+        return {"result": res}
+    if op == "session_scram_nochallenge":
+        from autobahn.wamp.types import ComponentConfig
+        s = ENV.session(mixin=_shim(), config=ComponentConfig(realm="realm1"))
+        s.s.add_authenticator(auth.create_authenticator("scram", authid="user", password="p4ssw0rd"))
+        s.open()
+        s.recv([2, 4711, {"roles": ROLES, "authid": "user", "authrole": "user", "authmethod": "scram", "authprovider": "static", "authextra": rep["authextra"]}])
+        return {"result": {"joined": joined(s), "abort": sends(s, 3)}}
     if op == "cra":
         return {"result": repr(call(lambda: auth.create_authenticator("wampcra", authid="user", secret="".join(map(chr, rep["secret"]))).on_challenge(
             None, wtypes.Challenge("wampcra", dict({"challenge": "".join(map(chr, rep["challenge"]))},
@@ -1344,13 +1559,14 @@ out = {}
 if "replay" in inp:
     out["replay"] = replay(inp["replay"])
 else:
-    parts = inp.get("parts", ["vectors", "cra", "totp", "scram", "cs", "misc", "session"])
+    parts = inp.get("parts", ["vectors", "cra", "totp", "scram", "history", "cs", "misc", "session"])
     if "vectors" in parts:
         for vf in inp.get("vector_files", []):
             run_vectors(json.load(open(vf)))
     if "cra" in parts: gen_cra(inp.get("n_cra", 50))
     if "totp" in parts: gen_totp(inp.get("n_totp", 50))
     if "scram" in parts: gen_scram(inp.get("n_scram", 20), inp.get("exhaustive_every", 0))
+    if "history" in parts: gen_history(inp.get("n_history", 20))
     if "cs" in parts: gen_cs(inp.get("n_cs", 30), inp.get("exhaustive_every", 0))
     if "misc" in parts: gen_misc(inp.get("n_misc", 30))
     if "session" in parts: gen_session(inp.get("n_session", 12))
